@@ -56,6 +56,34 @@ def _worker(i):
     return i, out
 
 
+_SATS_BY_TASK = None
+_KNOWN = None
+REPLAY_CAP = 3
+
+
+def _replay_group(i):
+    tname, rs = _SATS_BY_TASK[i]
+    t = [x for x in _TASKS if x.name == tname][0]
+    out, nconf = [], 0
+    for r in rs:
+        if nconf >= REPLAY_CAP:
+            out.append((dict(confirmed=None, detail="not replayed: %d counterexamples of this task already reproduced" % nconf), None))
+            continue
+        try:
+            rp = _PROP.replay(t, r)
+        except BaseException as e:  # noqa
+            rp = dict(confirmed=False, detail="replay crashed: %s: %s" % (type(e).__name__, e))
+        kid = None
+        if rp.get("confirmed"):
+            k = _match_known(_KNOWN, _PROP.PROP_ID, r, t.cfg)
+            if k is not None:
+                kid = k["id"]
+            else:
+                nconf += 1
+        out.append((rp, kid))
+    return i, out
+
+
 def load_known():
     if not os.path.exists(KNOWN):
         return dict(findings=[], fixed=[])
@@ -130,25 +158,40 @@ def run_property(prop, tier, seed=0, only=None, jobs=None):
     vacuous = [r for r in reach if r["verdict"] == "unsat"]
     reach_unknown = [r for r in reach if r["verdict"] not in ("sat", "unsat")]
 
-    violations, known_hits, spurious = [], [], []
+    violations, known_hits, spurious, unreplayed = [], [], [], []
     tmap = {t.name: t for t in tasks}
+    # replays: the first one runs in this process (builds the real libraries once), the rest in a fork pool grouped by
+    # task; within a task replaying stops after REPLAY_CAP reproduced *unlisted* counterexamples (exit status is 1 anyway)
+    global _SATS_BY_TASK, _KNOWN
+    _KNOWN = known
+    by_task = {}
     for r in sats:
-        t = tmap[r["task"]]
-        rp = None
-        try:
-            rp = prop.replay(t, r)
-        except BaseException as e:  # noqa
-            rp = dict(confirmed=False, detail="replay crashed: %s: %s" % (type(e).__name__, e))
-        r["replay"] = rp
-        if not rp.get("confirmed"):
-            spurious.append(r)
-            continue
-        k = _match_known(known, pid, r, t.cfg)
-        if k is not None:
-            r["known"] = k["id"]
-            known_hits.append((k, r))
-        else:
-            violations.append(r)
+        by_task.setdefault(r["task"], []).append(r)
+    groups = list(by_task.items())
+    _SATS_BY_TASK = groups
+    outs = []
+    if groups:
+        # compile the real libraries here (children inherit the directory) but never *load* them in this process: forking after
+        # OpenMP/BLAS threads exist deadlocks the children, so every replay runs in a forked child
+        from . import replaylibs
+        replaylibs.build(with_fft=bool(getattr(prop, "NEEDS_FFT", False)))
+        idxs = list(range(len(groups)))
+        ctx = mp.get_context("fork")
+        with ctx.Pool(max(1, min(jobs, len(idxs)))) as pool:
+            got = dict(pool.imap_unordered(_replay_group, idxs, chunksize=1))
+        outs = [got[i] for i in idxs]
+    for (tname, rs), res in zip(groups, outs):
+        for r, (rp, kid) in zip(rs, res):
+            r["replay"] = rp
+            if rp.get("confirmed") is None:
+                unreplayed.append(r)
+            elif not rp.get("confirmed"):
+                spurious.append(r)
+            elif kid is not None:
+                r["known"] = kid
+                known_hits.append(([k for k in known.get("findings", []) if k["id"] == kid][0], r))
+            else:
+                violations.append(r)
 
     # ---- report
     seen_known = {}
@@ -190,7 +233,7 @@ def run_property(prop, tier, seed=0, only=None, jobs=None):
             explanation=meta.get("explanation", "bounded symbolic execution of the real code + SMT"),
             obligations=len(obligations), discharged=len(discharged), inconclusive=len(inconclusive) + len(spurious),
             counterexamples_reproduced=len(violations) + len(known_hits), known_findings=sorted(seen_known),
-            not_reproduced=len(spurious),
+            not_reproduced=len(spurious), sat_not_replayed_after_cap=len(unreplayed),
             evaluations=len(obligations), distinct_nontrivial=distinct,
             rule="one evaluation = one SMT query (negated obligation under path condition); distinct = distinct (obligation, path) pairs whose negated goal did not simplify to false syntactically",
             paths_explored=sum(o.get("paths", 0) for o in results),
@@ -217,9 +260,10 @@ def run_property(prop, tier, seed=0, only=None, jobs=None):
     with open(os.path.join(EVID, "%s.json" % pid), "w") as f:
         json.dump(ev, f, indent=1, default=str)
     print("%s tier=%s: %d obligations, %d discharged (unsat), %d inconclusive, %d reproduced counterexamples "
-          "(%d known), %d not reproduced, %d paths, %d tasks, %.1fs wall"
+          "(%d known), %d not reproduced%s, %d paths, %d tasks, %.1fs wall"
           % (pid, tier, len(obligations), len(discharged), len(inconclusive), len(violations) + len(known_hits),
-             len(known_hits), len(spurious), ev["coverage"]["paths_explored"], len(tasks), wall))
+             len(known_hits), len(spurious), (", %d further sat not replayed (cap)" % len(unreplayed)) if unreplayed else "",
+             ev["coverage"]["paths_explored"], len(tasks), wall))
     if violations:
         return EXIT_VIOLATION
     if errors or vacuous:
